@@ -156,8 +156,10 @@ static std::vector<Obs> observe(const TV& t) {
   return o;
 }
 
-enum Ctx { BARE, IN_STRUCT, IN_VECTOR, IN_ENTRY, NCTX };
-static const char* kCtx[] = {"bare", "struct-member", "vector-element", "outer-table-entry"};
+// IN_LAST_ENTRY (C05 only): the table under test is the LAST thing of the enclosing table, so that a cut inside its trailing
+// skipped entry / padding is not followed by anything else that would fail
+enum Ctx { BARE, IN_STRUCT, IN_VECTOR, IN_ENTRY, NCTX, IN_LAST_ENTRY = NCTX };
+static const char* kCtx[] = {"bare", "struct-member", "vector-element", "outer-table-entry", "outer-table-last-entry"};
 static const int32_t kSentinel = 0x51525354;
 
 struct WriteOut { int err = 0; std::vector<uint8_t> bytes; };
@@ -173,6 +175,7 @@ static St write_wrapped(W& w, const TV& t, int ctx, std::true_type) {
     case BARE: return w.write(t);
     case IN_STRUCT: { vt::S2<TV, int32_t> s{t, 0x1234}; return w.write(s); }
     case IN_VECTOR: { std::vector<TV> v{t, t}; return w.write(v); }
+    case IN_LAST_ENTRY: { vt::T2<std::string, TV> o; o.a = std::string("head"); o.b = t; return w.write(o); }
     default: { vt::T2<TV, std::string> o; o.a = t; o.b = std::string("tail"); return w.write(o); }
   }
 }
@@ -211,6 +214,12 @@ static St read_wrapped(Rig& rig, TV& t, int ctx, bool prefill, ReadOut& r, std::
       if (prefill) v.push_back(t);
       st = rig.read(&v);
       if (st) { r.ctx_ok = v.size() == 2; if (v.size() == 2) { r.obs = observe(v[0]); r.obs2 = observe(v[1]); } }
+      break;
+    }
+    case IN_LAST_ENTRY: {
+      vt::T2<std::string, TV> o;
+      st = rig.read(&o);
+      if (st) { r.ctx_ok = !o.a.empty() && !o.b.empty() && o.a.get() == "head"; if (!o.b.empty()) r.obs = observe(o.b.get()); }
       break;
     }
     default: {
@@ -474,6 +483,38 @@ static void run_c05x() {
           }
       }
     }
+  }
+  // the same in every wrapping context (versions that have them): the enclosing reader is then a BoundedReader over the rig's
+  // reader (table entry) or continues after the table (struct, vector); every strict prefix of the wrapped message is rejected
+  static const size_t kSentinelBytes = 5;  // 0x86 + int32
+  for (auto& wv : g_versions) {
+    if (wv.entries.empty() || skip_w(wv) || !wv.ctx_capable) continue;
+    std::vector<int> a(wv.entries.size(), 2), b(wv.entries.size(), 1);
+    for (auto& asg : {a, b})
+      for (int ctx : {(int)IN_STRUCT, (int)IN_VECTOR, (int)IN_ENTRY, (int)IN_LAST_ENTRY}) {
+        WriteOut wo = wv.write(asg, ctx);
+        if (wo.err || wo.bytes.size() <= kSentinelBytes) continue;
+        const size_t len = wo.bytes.size() - kSentinelBytes;
+        for (auto& rv : g_versions) {
+          if (!rv.read || skip_r(rv) || !rv.ctx_capable) continue;
+          for (int rig = 0; rig < NRIG; rig++)
+            for (size_t k = 0; k < len; k++) {
+              std::string cid = "C05|x|w" + std::to_string(wv.index) + "|r" + std::to_string(rv.index) + "|a" + astr(asg) + "|" + kCtx[ctx] + "|" + kRig[rig] + "|cut" + std::to_string(k);
+              if (!R.only.empty() && R.only != cid) continue;
+              ReadOut ro = rv.read(rig, wo.bytes.data(), k, ctx, false);
+              R.counters["evaluations"]++;
+              R.distinct_direct++;
+              if (!ro.err) {
+                R.outcome("ACCEPTED-TRUNCATED");
+                R.viol(std::string("C05|accepted-truncation|cross-version|") + kCtx[ctx] + "|" + kRig[rig], cid,
+                       "strict prefix (" + std::to_string(k) + " of " + std::to_string(len) + " bytes) of a table written by {" + wv.desc + "} as " + kCtx[ctx] + " was decoded successfully by {" + rv.desc + "}",
+                       "{\"writer\":" + jstr(wv.desc) + ",\"reader\":" + jstr(rv.desc) + ",\"context\":" + jstr(kCtx[ctx]) + ",\"bytes\":" + jstr(hex(std::vector<uint8_t>(wo.bytes.begin(), wo.bytes.begin() + len), 200)) + ",\"cut\":" + std::to_string(k) + "}");
+              } else {
+                R.outcome(std::string("rejected:") + ename(ro.err));
+              }
+            }
+        }
+      }
   }
   R.sample("{\"writer\":\"every version, all entries set\",\"reader\":\"every version\",\"cut\":\"every position incl. skipped entries and padding\"}");
 }
